@@ -250,7 +250,12 @@ def run(tier, seed):
             by[h.id] = h
             fam = c.meta["family"]
             if c.removed is not None:
-                raise core.Inconclusive("benign twin %s does not compile: %s" % (c.id, c.removed["diags"][:1]))
+                # the benign twin has no imports and invokes the macro by absolute path: it has to compile as well
+                d = (c.removed["diags"] or [{}])[0]
+                rep.violation(c.id, "benign-compile:%s:%s" % (d.get("code"), re.sub(r"c19\w+", "CID", d.get("message", ""))[:70]),
+                              "a scope without any imports does not compile (%s): %s" % (fam, d.get("message", "")[:300]))
+                rep.count(c.sig(), True)
+                continue
             if h.removed is not None:
                 d = (h.removed["diags"] or [{}])[0]
                 rep.violation(h.id, "hostile-compile:%s:%s" % (d.get("code"), re.sub(r"c19\w+", "CID", d.get("message", ""))[:70]),
